@@ -116,28 +116,28 @@ Create HintDb irp discriminated.
 #[export] Hint Extern 1 (OutC _ _) => outl : irp.
 #[export] Hint Extern 1 (OutI _ _) => outl : irp.
 #[export] Hint Extern 1 (OutP _ _) => outl : irp.
-#[export] Hint Extern 1 (irpq _ _ _ (model_of _)) => (eapply irpq_model_of; np) : irp.
-#[export] Hint Extern 1 (irpq _ _ _ (dfs_ids _ _)) => (eapply irpq_dfs_ids; np) : irp.
-#[export] Hint Extern 1 (irpq _ _ _ (named_paths _ _)) => (eapply irpq_named_paths; outl) : irp.
-#[export] Hint Extern 1 (irpq _ _ _ (ref_texts _ _ _)) => (eapply irpq_ref_texts; outl) : irp.
-#[export] Hint Extern 1 (irpq _ _ _ (parent_of ?n)) =>
+#[export] Hint Extern 1 (irpq _ _ _ _ (model_of _)) => (eapply irpq_model_of; np) : irp.
+#[export] Hint Extern 1 (irpq _ _ _ _ (dfs_ids _ _)) => (eapply irpq_dfs_ids; np) : irp.
+#[export] Hint Extern 1 (irpq _ _ _ _ (named_paths _ _)) => (eapply irpq_named_paths; outl) : irp.
+#[export] Hint Extern 1 (irpq _ _ _ _ (ref_texts _ _ _)) => (eapply irpq_ref_texts; outl) : irp.
+#[export] Hint Extern 1 (irpq _ _ _ _ (parent_of ?n)) =>
   (match goal with H : GoodN _ _ n |- _ => eapply irpq_parent_of; exact H end) : irp.
-#[export] Hint Extern 1 (irpq _ _ _ (wtry (parent_of ?n))) =>
+#[export] Hint Extern 1 (irpq _ _ _ _ (wtry (parent_of ?n))) =>
   (match goal with H : GoodN _ _ n |- _ => eapply irpq_try; eapply irpq_parent_of; exact H end) : irp.
-#[export] Hint Extern 1 (irpq _ _ _ (first_named _ _)) => (eapply irpq_first_named; outl) : irp.
-#[export] Hint Extern 1 (irpq _ _ _ (get_sub_element _ _)) => (eapply irpq_get_sub_element; np) : irp.
-#[export] Hint Extern 1 (irpq _ _ _ (first_named_item _ _ _ _)) => (eapply irpq_first_named_item; outl) : irp.
-#[export] Hint Extern 8 (irpq _ _ _ _) => (apply irp_ro; solve [ro_tac]) : irp.
-#[export] Hint Extern 2 (irpq _ _ _ (add_identifiable _ _ _)) => (apply irp_add_identifiable; [assumption | np]) : irp.
-#[export] Hint Extern 2 (irpq _ _ _ (remove_identifiable _ _)) => (apply irp_remove_identifiable; assumption) : irp.
-#[export] Hint Extern 2 (irpq _ _ _ (fix_identifiables _ _ _)) => (apply irp_fix_identifiables; assumption) : irp.
-#[export] Hint Extern 2 (irpq _ _ _ (add_reference_origin _ _ _)) => (apply irp_add_reference_origin; [assumption | np]) : irp.
-#[export] Hint Extern 2 (irpq _ _ _ (fix_reference_origins _ _ _ _)) => (apply irp_fix_reference_origins; [assumption | np]) : irp.
-#[export] Hint Extern 2 (irpq _ _ _ (remove_reference_origin _ _ _)) => (apply irp_remove_reference_origin; assumption) : irp.
+#[export] Hint Extern 1 (irpq _ _ _ _ (first_named _ _)) => (eapply irpq_first_named; outl) : irp.
+#[export] Hint Extern 1 (irpq _ _ _ _ (get_sub_element _ _)) => (eapply irpq_get_sub_element; np) : irp.
+#[export] Hint Extern 1 (irpq _ _ _ _ (first_named_item _ _ _ _)) => (eapply irpq_first_named_item; outl) : irp.
+#[export] Hint Extern 8 (irpq _ _ _ _ _) => (apply irp_ro; solve [ro_tac]) : irp.
+#[export] Hint Extern 2 (irpq _ _ _ _ (add_identifiable _ _ _)) => (apply irp_add_identifiable; [assumption | np]) : irp.
+#[export] Hint Extern 2 (irpq _ _ _ _ (remove_identifiable _ _)) => (apply irp_remove_identifiable; assumption) : irp.
+#[export] Hint Extern 2 (irpq _ _ _ _ (fix_identifiables _ _ _)) => (apply irp_fix_identifiables; assumption) : irp.
+#[export] Hint Extern 2 (irpq _ _ _ _ (add_reference_origin _ _ _)) => (apply irp_add_reference_origin; [assumption | np]) : irp.
+#[export] Hint Extern 2 (irpq _ _ _ _ (fix_reference_origins _ _ _ _)) => (apply irp_fix_reference_origins; [assumption | np]) : irp.
+#[export] Hint Extern 2 (irpq _ _ _ _ (remove_reference_origin _ _ _)) => (apply irp_remove_reference_origin; assumption) : irp.
 
 Ltac irp_loop :=
   match goal with
-  | |- irpq ?P ?b ?Q (?F ?l) =>
+  | |- irpq ?P ?b ?pf ?Q (?F ?l) =>
     is_fix F;
     first
     [ let H := fresh "Hout" in
@@ -149,37 +149,37 @@ Ltac irp_loop :=
 
 Ltac irp_step :=
   lazymatch goal with
-  | |- irp _ _ _ => unfold irp
-  | |- irpq _ _ _ (wret _) => apply irpq_ret; first [exact I | np | outl | auto with irp]
-  | |- irpq _ _ _ (wfail _) => apply irpq_fail
-  | |- irpq _ _ _ (wpanic _) => apply irpq_panic
-  | |- irpq _ _ _ wfuel => apply irpq_fuel
-  | |- irpq _ _ _ (wbind (get_node _) _) => first [ apply irpq_get; [np | intros ? ?] | apply irpq_get_any; intros ? ]
-  | |- irpq _ _ _ (wbind (get_model _) _) =>
+  | |- irp _ _ _ _ => unfold irp
+  | |- irpq _ _ _ _ (wret _) => apply irpq_ret; first [exact I | np | outl | auto with irp]
+  | |- irpq _ _ _ _ (wfail _) => apply irpq_fail
+  | |- irpq _ _ _ _ (wpanic _) => apply irpq_panic
+  | |- irpq _ _ _ _ wfuel => apply irpq_fuel
+  | |- irpq _ _ _ _ (wbind (get_node _) _) => first [ apply irpq_get; [np | intros ? ?] | apply irpq_get_any; intros ? ]
+  | |- irpq _ _ _ _ (wbind (get_model _) _) =>
     first [ apply irpq_get_model; [assumption | intros ? ?] | apply irpq_get_model_any; intros ? ]
-  | |- irpq _ _ _ (wbind wget _) => apply irpq_wget; intros ?
-  | |- irpq _ _ _ (wbind (alloc _) _) => eapply irpq_bind; [apply irpq_alloc; good | cbv beta; intros ? ?]
-  | |- irpq _ _ _ (wbind (wtry _) _) =>
+  | |- irpq _ _ _ _ (wbind wget _) => apply irpq_wget; intros ?
+  | |- irpq _ _ _ _ (wbind (alloc _) _) => eapply irpq_bind; [apply irpq_alloc; good | cbv beta; intros ? ?]
+  | |- irpq _ _ _ _ (wbind (wtry _) _) =>
     first [ eapply irpq_bind; [ solve [eauto with irp nocore] | cbv beta; intros ? ? ]
           | eapply irpq_bind; [ eapply irpq_try; solve [eauto with irp nocore] | cbv beta; intros ? ? ]
-          | eapply (irpq_bind _ _ (fun _ => True)); [ | intros ? _ ] ]
-  | |- irpq ?P _ _ (wbind (?F ?l) _) =>
-    first [ (is_fix F; eapply (irpq_bind _ _ (OutI P)); [ | intros ? ? ])
+          | eapply (irpq_bind _ _ _ (fun _ => True)); [ | intros ? _ ] ]
+  | |- irpq ?P _ _ _ (wbind (?F ?l) _) =>
+    first [ (is_fix F; eapply (irpq_bind _ _ _ (OutI P)); [ | intros ? ? ])
           | eapply irpq_bind; [ solve [eauto with irp nocore] | cbv beta; intros ? ? ]
-          | eapply (irpq_bind _ _ (fun _ => True)); [ | intros ? _ ] ]
-  | |- irpq _ _ _ (wbind _ _) =>
+          | eapply (irpq_bind _ _ _ (fun _ => True)); [ | intros ? _ ] ]
+  | |- irpq _ _ _ _ (wbind _ _) =>
     first [ eapply irpq_bind; [ solve [eauto with irp nocore] | cbv beta; intros ? ? ]
-          | eapply (irpq_bind _ _ (fun _ => True)); [ | intros ? _ ] ]
-  | |- irpq _ _ _ (wtry _) => eapply (irp_try _ _ (fun _ => True))
-  | |- irpq _ _ _ (set_node _ _) => apply irp_set_node; [np | good]
-  | |- irpq _ _ _ (modify_node _ _) => apply irp_modify_node; [np | goodf]
-  | |- irpq _ _ _ (set_model _ _) => apply irp_set_model; [assumption | goodm]
-  | |- irpq _ _ _ (modify_model _ _) => apply irp_modify_model; [assumption | intros ? ?; goodm]
-  | |- irpq _ _ _ (match ?x with _ => _ end) => destruct x eqn:?
-  | |- irpq _ _ _ (if ?b then _ else _) => destruct b eqn:?
-  | |- irpq _ _ _ (let '(_, _) := ?x in _) => destruct x
-  | |- irpq _ _ _ (?F ?l) =>
-    first [ match goal with IH : _ -> irpq _ _ _ (F l) |- _ => apply IH; outl end
+          | eapply (irpq_bind _ _ _ (fun _ => True)); [ | intros ? _ ] ]
+  | |- irpq _ _ _ _ (wtry _) => eapply (irp_try _ _ _ (fun _ => True))
+  | |- irpq _ _ _ _ (set_node _ _) => apply irp_set_node; [np | good]
+  | |- irpq _ _ _ _ (modify_node _ _) => apply irp_modify_node; [np | goodf]
+  | |- irpq _ _ _ _ (set_model _ _) => apply irp_set_model; [assumption | goodm]
+  | |- irpq _ _ _ _ (modify_model _ _) => apply irp_modify_model; [assumption | intros ? ?; goodm]
+  | |- irpq _ _ _ _ (match ?x with _ => _ end) => destruct x eqn:?
+  | |- irpq _ _ _ _ (if ?b then _ else _) => destruct b eqn:?
+  | |- irpq _ _ _ _ (let '(_, _) := ?x in _) => destruct x
+  | |- irpq _ _ _ _ (?F ?l) =>
+    first [ match goal with IH : _ -> irpq _ _ _ _ (F l) |- _ => apply IH; outl end
           | assumption
           | solve [eauto with irp nocore]
           | irp_loop ]
@@ -190,14 +190,15 @@ Ltac irp_tac := repeat irp_step.
 Section Ops.
 Variable P : id -> Prop.
 Variable PM : N -> Prop.
+Variable PF : N -> Prop.
 Variable T : tables.
 Variable tab_el tab_en : nametab.
 Variable check_fn : N -> list N -> res bool.
 Variable LATEST : N.
 Variable root_attrs : list (N * cdata).
 
-Notation irpq := (irpq P PM).
-Notation irp := (CopyProofsIrp.irpq P PM (fun _ => True)).
+Notation irpq := (irpq P PM PF).
+Notation irp := (CopyProofsIrp.irpq P PM PF (fun _ => True)).
 Notation NPq := (fun c : id => ~ P c).
 
 Lemma irp_content_insert i pos c : ~ P i -> ~ P c -> irp (content_insert i pos (CElem c)).
@@ -348,12 +349,12 @@ Lemma irpq_new_model : irpq (fun m => ~ PM m) (new_model T root_attrs).
 Proof.
   intros w r w' S E. unfold new_model in E.
   destruct (et_new T (autosar_element T)) as [ty| |]; destruct (elem T (autosar_element T)) as [ed| |]; try discriminate E.
-  injection E as <- <-. destruct S as (S1 & S2 & S3 & S4).
+  injection E as <- <-. destruct S as (S1 & S2 & S3 & S4 & S5).
   assert (Hfresh : ~ P (w_next w)). { intros Hp. apply S1 in Hp. lia. }
   assert (Hlen : ~ PM (N.of_nat (List.length (w_models w)))).
   { intros Hb. destruct (S4 _ Hb) as (xb & Hxb). apply nth_opt_Some in Hxb. rewrite Nnat.Nat2N.id in Hxb. lia. }
   split; [|split].
-  - split; [|split; [|split]]; cbn [w_next w_nodes w_models].
+  - split; [|split; [|split; [|split; [|exact S5]]]]; cbn [w_next w_nodes w_models].
     + intros i Hi. apply S1 in Hi. lia.
     + intros j n Hj Hn. destruct (N.eq_dec j (w_next w)) as [->|Hne].
       * rewrite upd_eq in Hn. injection Hn as <-. split; [intros c []|]. split; [intros p; cbn; discriminate|].
@@ -373,17 +374,22 @@ Proof.
 Qed.
 
 Lemma Sealed_new_file w m name version :
-  ~ PM m -> Sealed P PM w ->
+  Sealed P PM PF w ->
   let w1 := mkWorld (w_nodes w) (w_next w) (w_files w ++ [mkFile m name version None]) (w_models w) in
-  Sealed P PM w1 /\ Same P PM w w1.
+  Sealed P PM PF w1 /\ Same P PM PF w w1 /\ ~ PF (N.of_nat (List.length (w_files w))).
 Proof.
-  intros Hm S w1. split; [exact S|]. split; [reflexivity|]. split; [reflexivity|].
-  intros k. subst w1. cbn [w_files].
-  destruct (nth_opt_snoc (w_files w) (mkFile m name version None) k) as [H|(_ & H1 & H2)]; [left; exact H|right].
-  rewrite H1, H2. split; [discriminate|]. intros fl [= <-]. exact Hm.
+  intros S w1. destruct S as (S1 & S2 & S3 & S4 & S5).
+  assert (Hold : forall f, PF f -> nth_opt (w_files w ++ [mkFile m name version None]) (N.to_nat f) = nth_opt (w_files w) (N.to_nat f)).
+  { intros f Hf. destruct (S5 f Hf) as (fl & Hfl).
+    destruct (nth_opt_snoc (w_files w) (mkFile m name version None) (N.to_nat f)) as [H|(_ & H & _)]; congruence. }
+  split; [|split].
+  - split; [exact S1|]. split; [exact S2|]. split; [exact S3|]. split; [exact S4|].
+    intros f Hf. destruct (S5 f Hf) as (fl & Hfl). exists fl. subst w1. cbn [w_files]. rewrite Hold by exact Hf. exact Hfl.
+  - split; [reflexivity|]. split; [reflexivity|]. intros f Hf. subst w1. cbn [w_files]. apply Hold. exact Hf.
+  - intros Hf. destruct (S5 _ Hf) as (fl & Hfl). apply nth_opt_Some in Hfl. rewrite Nnat.Nat2N.id in Hfl. lia.
 Qed.
 
-Lemma irpq_create_file m name version : ~ PM m -> irp (m_create_file T m name version).
+Lemma irpq_create_file m name version : ~ PM m -> irpq (fun f => ~ PF f) (m_create_file T m name version).
 Proof.
   intros Hm. unfold m_create_file. apply irpq_get_model; [exact Hm|intros x Gx].
   intros w r w' S E. apply wbind_inv in E as [(w0 & w1 & E1 & E2) | (e & E1 & _)]; [|apply wget_inv in E1 as ([=] & _)].
@@ -392,12 +398,24 @@ Proof.
   { apply wfail_inv in E2 as (-> & ->). split; [exact S|]. split; [apply Same_refl|]. intros a [=]. }
   apply wbind_inv in E2 as [(u & w1 & E1 & E2) | (e & E1 & _)]; [|discriminate E1].
   unfold wput in E1. injection E1 as <- <-.
-  destruct (Sealed_new_file w m name version Hm S) as (S1 & Sm1). cbv zeta in S1, Sm1.
-  revert E2. generalize (N.of_nat (List.length (w_files w))). intros fid E2.
-  assert (Hk : irp (modify_model m (fun y => set_mfiles y (m_files y ++ [fid]));;
+  destruct (Sealed_new_file w m name version S) as (S1 & Sm1 & Hfid). cbv zeta in S1, Sm1.
+  revert E2 Hfid. generalize (N.of_nat (List.length (w_files w))). intros fid E2 Hfid.
+  assert (Hk : irpq (fun f => ~ PF f) (modify_model m (fun y => set_mfiles y (m_files y ++ [fid]));;
                      (do w2 <- wget; do _ <- wtry (add_to_file_restricted T (fuel_of w2) (m_root x) fid); wret fid))%W).
   { irp_tac. }
-  destruct (Hk _ _ _ S1 E2) as (S2 & Sm2 & _). split; [exact S2|]. split; [eapply Same_trans; eauto|auto].
+  destruct (Hk _ _ _ S1 E2) as (S2 & Sm2 & Hq). split; [exact S2|]. split; [eapply Same_trans; eauto|exact Hq].
+Qed.
+
+Lemma irp_set_file f x : ~ PF f -> irp (set_file f x).
+Proof.
+  intros Hf w r w' S E. unfold set_file in E. injection E as <- <-.
+  destruct S as (S1 & S2 & S3 & S4 & S5).
+  assert (Hold : forall g, PF g -> nth_opt (list_set (w_files w) (N.to_nat f) x) (N.to_nat g) = nth_opt (w_files w) (N.to_nat g)).
+  { intros g Hg. rewrite !nth_opt_nth_error. apply list_set_nth_neq. apply to_nat_neq. intros ->. auto. }
+  split; [|split; [|auto]].
+  - split; [exact S1|]. split; [exact S2|]. split; [exact S3|]. split; [exact S4|].
+    intros g Hg. destruct (S5 g Hg) as (fl & Hfl). exists fl. cbn [w_files]. rewrite Hold by exact Hg. exact Hfl.
+  - split; [reflexivity|]. split; [reflexivity|]. intros g Hg. cbn [w_files]. apply Hold. exact Hg.
 Qed.
 
 End Ops.
